@@ -13,8 +13,8 @@ quick: a seeded sample of the edits; thorough: all of them.
 
 Correspondence (tie C).  The Lean model `ParseCheck.check` decides, for a YAML value, what everything that
 runs before the interpreter does with it: `ok` (with the parsed statements), `recipe_error <DataGenError
-subclass>`, `stuck <exception type>@<function>` (a place where the Python raises a non-recipe exception on an
-ill-shaped value), or `fuel` (unbounded include_file recursion).  For every document the model covers
+subclass>`, `stuck <exception type>@<function>` (an operation the code performs unguarded in place; proved
+unreachable since the repairs), or `fuel` (nested deeper than the recursion budget: a DataGenSyntaxError on the code).  For every document the model covers
 (plain YAML values, flat include files, plugin names the environment can decide) the real run must agree on
 the outcome class, the error class, the stage (parse / options / refs) and the raising site, and — when both
 accept — on the parsed statements (`parse_recipe` is run once more and its ObjectTemplate / VariableDefinition
@@ -36,9 +36,9 @@ SPEC = {
     "lean": ["SnowModel.Props.C20", "SnowModel.Props.C20Bridge"],
     "pins": ["ParseTables", "GenerateOrder", "PluginResolve"],
     "harness": "harness.c20",
-    "technique": "Lean 4 theorems about an executable model of the validation layer (parse_recipe, merge_options, the random_reference static pass) over arbitrary YAML values, with an explicit `stuck site` outcome wherever the Python raises a non-recipe exception + key/type tables, isinstance tuples, collection rules and the call order of generate() regenerated from the AST + mutation-based differential of outcome class, error class, stage, site and parsed statements + a direct oracle on the escaping exception",
-    "level_text": "Machine-checked proof, for every YAML value, every set of include files and every amount of fuel, that the model of the validation layer (a) never gets stuck on documents that avoid a decidable list of holes, each hole being witnessed by a concrete document on which the model (and the code) does get stuck; (b) only accepts documents whose parsed form satisfies the shape invariant the interpreter relies on; (c) gives fuel-independent results, and diverges on an include_file cycle; (d) produces no row before a structural fault.  The model is tied to the source by bridging lemmas over tables regenerated from the AST on every run and by differential runs over every single structural edit of a corpus of valid recipes.",
-    "level_note": "Trusted: Lean kernel; py2lean + tools/pins/parse_tables.py; the harness (PyYAML as the loader of the document for the model; conversion of the loaded value); CPython isinstance / dict / truthiness semantics as modelled. The universal negative over arbitrary YAML is decided by proof only for the modelled checks (top-level categorisation, parse_element, templates, fields, function calls, macros, include files, options, random_reference static pass); plugin argument checking, formula evaluation and everything that happens once the interpreter runs are covered by the direct oracle only (differential exploration). parse_never_stuck is refuted (18 sites) and kept as a _partial theorem under AvoidsKnownHoles.",
+    "technique": "Lean 4 theorems about an executable model of the validation layer (parse_recipe incl. include files, macros, the declaration loop, versions across files; merge_options; the random_reference static pass) over arbitrary YAML values, with an explicit `stuck site` outcome for every operation the code still performs unguarded in place + key/type tables, isinstance tuples, collection rules, every raise with its condition and class, the cycle stacks, the RecursionError guard and the call order of generate() regenerated from the AST + mutation-based differential of outcome class, error class, stage, site and parsed statements + a direct oracle on the escaping exception and on the location of recipe errors",
+    "level_text": "Machine-checked proof, for every YAML value, every set of include files and every amount of fuel, that the model of the validation layer (a) never gets stuck — every document is accepted, rejected with a recipe error, and beyond an explicit budget never runs out of fuel (parse_never_stuck, parse_terminates, accepted_or_rejected at full strength: the 16 escape sites that refuted it have been repaired in the repository and the model follows the repaired code; the operations that remain unguarded in place are proved unreachable); (b) only accepts documents whose parsed form satisfies the shape invariant the interpreter relies on; (c) rejects include_file cycles and macro cycles through nested templates for every amount of fuel (witness families); (d) produces no row before a structural fault.  The model is tied to the source by bridging lemmas over tables regenerated from the AST on every run and by differential runs over every single structural edit of a corpus of valid recipes.",
+    "level_note": "Trusted: Lean kernel; py2lean + tools/pins/parse_tables.py; the harness (PyYAML as the loader of the document for the model; conversion of the loaded value); CPython isinstance / dict / truthiness semantics as modelled. The universal negative over arbitrary YAML is decided by proof only for the modelled checks; plugin argument checking, formula evaluation and everything that happens once the interpreter runs are covered by the direct oracle only (differential exploration). Termination is proved with an explicit budget (parse_terminates); on the code the budget is Python's recursion limit and exceeding it is a recipe error too (pinned).",
     "assumptions": [
         "yaml.safe_load builds the same value for the harness (which converts it for the model) and for Snowfakery's line-number loader; a user-written `__line__` key is overwritten by the loader and is dropped before the model sees the value",
         "plugin names: whether a dotted name resolves to a plugin class is a fact of the environment, given to the model as a list (checked against the real resolve_plugin at start-up); no ParserMacroPlugin is loaded in covered documents",
@@ -164,7 +164,9 @@ def scan_env(doc, directory, files, budget):
                     raise NotCovered("plugin")
         inc = obj.get("include_file")
         if isinstance(inc, str) and inc and not inc.startswith("/"):
-            if not PLAIN_NAME.match(inc) or inc in (".", ".."):
+            if inc in (".", ".."):
+                continue  # a directory: not a file for the code, not a file for the model
+            if not PLAIN_NAME.match(inc):
                 raise NotCovered("include-name")
             if inc in files:
                 continue
@@ -172,7 +174,7 @@ def scan_env(doc, directory, files, budget):
             if path is None or not os.path.exists(path):
                 continue  # the model finds no such file either
             if not os.path.isfile(path):
-                raise NotCovered("include-dir")
+                continue  # a directory: `is_file()` is false, the code reports it like a missing file
             budget[0] -= 1
             if budget[0] < 0:
                 raise NotCovered("include-many")
@@ -407,7 +409,7 @@ NO_LOCATION_BASELINE = {
     "DataGenError@Schedule._normalize_frequency",
     "DataGenTypeError@Schedule._normalize_until",
     "DataGenValueError@UniqueId._convert",
-    "*@data_generator_runtime_object_model.VariableDefinition.evaluate",
+    "DataGenSyntaxError@parse_recipe_yaml.parse_recipe",  # "nested too deeply": the RecursionError guard has no node at hand
 }
 
 
@@ -419,6 +421,8 @@ def oracle(res, case=None):
         out.append(("C20:" + str(res["site"]), f"the run did not end within {D.CASE_TIMEOUT}s (interrupted in {str(res['site']).split('@', 1)[-1]})"))
     elif oc.startswith("internal:"):
         out.append(("C20:escape:" + str(res["site"]), f"{res['error']} escaped from generate() [{res['stage']} stage]"))
+        if res.get("family"):
+            out.append(("C20:escape:" + res["family"], f"{res['error']} escaped through the evaluation of a `var` value [{res['stage']} stage]"))
     elif oc == "recipe_error":
         if res.get("has_message") is False:
             out.append(("C20:error-without-message", f"{res['errtype']} carries no message"))
@@ -481,8 +485,9 @@ def compare(model, res):
             return "rows before a structural error"
         return None
     if cls == "fuel":
-        if oc != "internal:RecursionError":
-            return f"model: unbounded recursion; code: {oc} {res['error']}"
+        # beyond the recursion budget: `parse_recipe` turns the RecursionError into a DataGenSyntaxError
+        if oc != "recipe_error" or res["errtype"] != "DataGenSyntaxError" or not str(res["site"]).endswith("parse_recipe_yaml.parse_recipe"):
+            return f"model: nested beyond the budget; code: {oc} {res['site']} {res['error']}"
         return None
     return f"unknown model class {cls}"
 
@@ -596,11 +601,18 @@ def inject_cases(bases, rng, per_base):
 
 
 HAND_CASES = [
-    # one version declaration per file, different versions (the including file's wins)
+    # one version declaration per file, different versions: a conflict (fix 6931335)
+    {"text": "- include_file: b.yml\n- object: A\n  fields:\n    x: ${{1 + 1}}\n", "name": None, "files": {"b.yml": "- snowfakery_version: 3\n- object: B\n"}, "origin": "hand/version-from-included-file", "kind": "hand"},
+    {"text": "- include_file: b.yml\n- include_file: c.yml\n- object: A\n", "name": None, "files": {"b.yml": "- snowfakery_version: 3\n- object: B\n", "c.yml": "- snowfakery_version: 2\n- object: C\n"}, "origin": "hand/versions-differ-between-included-files", "kind": "hand"},
+    # a macro that includes itself through a nested template (fix 97f2c27), through a friend, and a legitimate re-use
+    {"text": "- macro: m\n  fields:\n    x:\n      - object: B\n        include: m\n- object: A\n  include: m\n", "name": None, "files": None, "origin": "hand/macro-cycle-through-nested-template", "kind": "hand"},
+    {"text": "- macro: m\n  friends:\n    - object: B\n      include: m\n- object: A\n  include: m\n", "name": None, "files": None, "origin": "hand/macro-cycle-through-friend", "kind": "hand"},
+    {"text": "- macro: m\n  fields:\n    x: 1\n- macro: n\n  fields:\n    y:\n      - object: B\n        include: m\n- object: A\n  include: m, n\n", "name": None, "files": None, "origin": "hand/macro-reused-in-nested-template", "kind": "hand"},
+    {"text": "- include_file: .\n- object: A\n", "name": None, "files": {}, "origin": "hand/include-directory", "kind": "hand"},
     {"text": "- snowfakery_version: 2\n- include_file: b.yml\n- object: A\n", "name": None, "files": {"b.yml": "- snowfakery_version: 3\n- object: B\n"}, "origin": "hand/versions-differ-across-files", "kind": "hand"},
     {"text": "- include_file: b.yml\n- snowfakery_version: 3\n- object: A\n", "name": None, "files": {"b.yml": "- snowfakery_version: 2\n- snowfakery_version: 2\n- object: B\n"}, "origin": "hand/versions-differ-across-files-2", "kind": "hand"},
     {"text": "- include_file: b.yml\n- snowfakery_version: 3\n- snowfakery_version: 2\n- object: A\n", "name": None, "files": {"b.yml": "- snowfakery_version: 2\n- object: B\n"}, "origin": "hand/versions-conflict-in-one-file", "kind": "hand"},
-    # two files that include each other (no cycle check for include_file)
+    # two files that include each other (fix 70277f6)
     {"text": "- include_file: b.yml\n- object: A\n", "name": None, "files": {"b.yml": "- include_file: main.recipe.yml\n- object: B\n"}, "origin": "hand/include-cycle", "kind": "hand"},
     {"text": "- include_file: b.yml\n- object: A\n", "name": None, "files": {"b.yml": "- object: [\n"}, "origin": "hand/include-bad-yaml", "kind": "hand"},
     {"text": "- include_file: b.yml\n- object: A\n", "name": None, "files": {"b.yml": "a: b\n"}, "origin": "hand/include-not-list", "kind": "hand"},
@@ -643,7 +655,7 @@ def run(ctx, rep, findings):
 
     # 3 single structural edits
     thorough = ctx.tier == "thorough"
-    per_base = None if thorough else ctx.scale(160, 160, search_factor=2)  # thorough: every edit
+    per_base = None if thorough else ctx.scale(300, 300, search_factor=2)  # thorough: every edit
     cases = edit_cases(bases, ctx.rng, per_base, extra=True)
     rep.extra["edit_cases"] = len(cases)
     rep.extra["edits_exhaustive"] = bool(thorough)
@@ -664,7 +676,7 @@ def run(ctx, rep, findings):
         check_cases(inj[i : i + chunk], rep)
 
     # 4 grammar-free random YAML
-    n = ctx.scale(4000, 20000)
+    n = ctx.scale(6000, 20000)
     rnd = [{"text": D.dump(D.random_doc(ctx.rng)), "name": None, "files": None, "origin": f"random{i}", "kind": "random"} for i in range(n)]
     for i in range(0, len(rnd), chunk):
         if ctx.time_left() < 30:
